@@ -173,6 +173,35 @@ def _shard(args):
         elif len(state.trivial_samples) < 1 and res.sample is not None:
             state.trivial_samples.append(res.sample)
 
+    if "enumerate" in spec:
+        # finite sub-space enumerated completely: logs are produced by the
+        # check itself, this shard takes every n_shards-th one
+        n_shards = spec.get("enum_shards", 16)
+        for i, log in enumerate(spec["enumerate"](tier)):
+            if i % n_shards != shard_idx:
+                continue
+            tape = Tape(log=log)
+            try:
+                with env.quiet():
+                    res = run_one_case(fn, tape, state)
+            except Violation as v:
+                state.evaluations += 1
+                if known_match(v.kind, state.findings):
+                    state.known_hits[v.kind] += 1
+                elif v.kind not in state.reported:
+                    state.reported[v.kind] = {"message": str(v.detail), "log": list(log)}
+                continue
+            except HarnessError as e:
+                state.harness_error = str(e)
+                break
+            state.evaluations += 1
+            for lab in res.labels:
+                state.labels[lab] += 1
+            if res.nontrivial:
+                state.nontrivial.add(tape.fingerprint())
+                if len(state.samples) < max_samples and res.sample is not None:
+                    state.samples.append(res.sample)
+        n_examples = 0
     remaining = n_examples
     round_no = 0
     while remaining > 0 and round_no <= MAX_KINDS_PER_SHARD:
@@ -295,6 +324,12 @@ def main(prop, tier="quick", replay=None, only=None, scale=1.0):
     for sub, spec in mod.SUBCHECKS.items():
         if only and sub not in only:
             continue
+        if "enumerate" in spec:
+            if not spec.get(tier, 1):
+                continue
+            for i in range(spec.get("enum_shards", 16)):
+                tasks.append((prop, sub, tier, seed_value, i, 0, 3))
+            continue
         n = int(spec[tier] * scale)
         if n <= 0:
             continue
@@ -407,6 +442,7 @@ def main(prop, tier="quick", replay=None, only=None, scale=1.0):
             "missing_required_label_classes": missing,
             "violation_kinds": sorted(violations),
             "exhaustive": False,
+            "exhaustive_subspaces": [k for k in per_sub if "enumerate" in mod.SUBCHECKS[k]],
         },
         "assumptions": list(getattr(mod, "ASSUMPTIONS", [])),
         "wall_s": round(wall, 2),
